@@ -1,8 +1,8 @@
 --------------------------- MODULE RouterCloseTrace ---------------------------
 (* Trace validation for C06.  Events:
      reset nh expectsubclose timeout | emit m | hstart m | hend m
-     closecall i t | closeret i ok t states | runret states
-     subclose | pubclose | quiesce states
+     closecall i t | closeret i ok t states | runret states | runfail (Run returned an error from its start-up)
+     subclose | pubclose (the publisher's Close has RETURNED) | quiesce states
    `states` maps every emitted message to its settlement sampled at that instant;
    times are microseconds.                                                        *)
 EXTENDS RouterCloseAbs, TraceBase
@@ -18,12 +18,13 @@ THStart == Is("hstart") /\ HStart(Ev.m) /\ K /\ Adv
 THEnd   == Is("hend") /\ HEnd(Ev.m) /\ K /\ Adv
 TCloseC == Is("closecall") /\ CloseCall(Ev.i, Ev.t) /\ K /\ Adv
 TCloseR == /\ Is("closeret")
-           /\ IF Ev.ok THEN CloseRetNil(Ev.i, Ev.states, Ev.t, timeout) ELSE CloseRetErr(Ev.i, Ev.t, timeout)
+           /\ IF Ev.ok THEN CloseRetNil(Ev.i, Ev.states, Ev.t, timeout, nh) ELSE CloseRetErr(Ev.i, Ev.t, timeout)
            /\ K /\ Adv
 TRunRet == Is("runret") /\ RunRet(Ev.states, Ev.t, timeout) /\ K /\ Adv
+TRunFail == Is("runfail") /\ RunFail /\ K /\ Adv
 TSubCl  == Is("subclose") /\ SubClose /\ K /\ Adv
 TPubCl  == Is("pubclose") /\ PubClose /\ K /\ Adv
 TQuiesce == Is("quiesce") /\ Quiescent(Ev.states, nh, expectSub) /\ UNCHANGED cvars /\ K /\ Adv
-TNext == TReset \/ TEmit \/ THStart \/ THEnd \/ TCloseC \/ TCloseR \/ TRunRet \/ TSubCl \/ TPubCl \/ TQuiesce
+TNext == TReset \/ TEmit \/ THStart \/ THEnd \/ TCloseC \/ TCloseR \/ TRunRet \/ TRunFail \/ TSubCl \/ TPubCl \/ TQuiesce
 TSpec == TInit /\ [][TNext]_tvars
 =============================================================================
